@@ -344,6 +344,9 @@ type Script struct {
 	PreRestart  func(a *Act) error
 	Restarted   func(a *Act) error
 	Options     []vivid.ActorOption
+	// Wrap, if set, wraps the scripted actor before it is handed to ActorOf / returned by the provider (e.g. with
+	// vivid.NewComplexCombinationActor and the New*Actor helpers of the public API)
+	Wrap func(inner vivid.Actor) vivid.Actor
 }
 
 // Act is one actor instance.
@@ -365,6 +368,10 @@ func (w *World) NewAct(s *Script) *Act {
 // Spawn options for a script.
 func (w *World) OptionsFor(s *Script) (vivid.Actor, []vivid.ActorOption) {
 	a := w.NewAct(s)
+	var actor vivid.Actor = a
+	if s.Wrap != nil {
+		actor = s.Wrap(a)
+	}
 	opts := []vivid.ActorOption{vivid.WithActorName(s.Name)}
 	if s.Strategy != nil {
 		opts = append(opts, vivid.WithActorSupervisionStrategy(s.Strategy))
@@ -374,11 +381,14 @@ func (w *World) OptionsFor(s *Script) (vivid.Actor, []vivid.ActorOption) {
 			n := w.NewAct(s)
 			n.Path = a.Path
 			w.Provided[a.Path]++
+			if s.Wrap != nil {
+				return s.Wrap(n)
+			}
 			return n
 		})))
 	}
 	opts = append(opts, s.Options...)
-	return a, opts
+	return actor, opts
 }
 
 // SpawnRoot spawns s as a child of the root through System.ActorOf.
